@@ -151,3 +151,6 @@ package balloons
 // the filter loop of Reconfigure: everything collected into `live` is created or running
 //@ loop 2 in (*balloons).Reconfigure at "range ctrs"
 //@   invariant -1 <= rangeindex && rangeindex < len(ctrs) && newobj(live) && allLive(live)
+//@   # C13 "after an accepted update every created or running container still holds an allocation": none is left out
+//@   invariant[C13] forall j int :: 0 <= j && j <= rangeindex && liveCtr(ctrs[j]) ==> exists k int :: 0 <= k && k < len(live) && live[k] == ctrs[j]
+//@ assert[C13] in (*balloons).Reconfigure at "p.Sync(live, ctrs)": forall j int :: 0 <= j && j < len(ctrs) && liveCtr(ctrs[j]) ==> exists k int :: 0 <= k && k < len(live) && live[k] == ctrs[j]
